@@ -1252,3 +1252,36 @@ func ruleC16Bound(cx *Ctx) {
 		cx.R.Undecided(rule, "otter", "maxWriteBufferSize", "-", "no store into the package variable maxWriteBufferSize found")
 	}
 }
+
+func init() {
+	alsoUnder(ruleC09Inside, "C09", "C02")
+}
+
+// ---- C09.inside ----
+// Cancelling a key's in-flight load is part of the bucket-locked step that changes (or confirms) the key's mapping: the
+// installer of a load removes its record and installs its value under that same lock, so a cancellation made outside it
+// can fall between the two and cancel nothing.
+func ruleC09Inside(cx *Ctx) {
+	const rule = "C09.inside"
+	cx.R.Rule(rule, 2, "every call of singleflight.delete (the cancellation of a key's in-flight load by a write, compute, invalidation or removal) sits in code that runs only inside a closure handed to the main table's Compute: no fast path cancels outside the bucket lock")
+	del := cx.need(rule, "", "group", "delete")
+	compute := cx.need(rule, hmPkg, "Map", "Compute")
+	hmf := cx.needField(rule, "", "cache", "hashmap")
+	if del == nil || compute == nil || hmf == nil {
+		return
+	}
+	under := computeClosureFuncs(cx, hmf, compute)
+	n := 0
+	for _, fn := range cx.P.FuncsOfPkg("") {
+		allInstrs(fn, func(in ssa.Instruction) {
+			if !isCallTo(in, del) {
+				return
+			}
+			n++
+			cx.R.Check(under[origin(outermost(fn))] || under[origin(fn)], rule, funcName(fn), "cancellation under the bucket lock", cx.P.where(in), "singleflight.delete is called only in code reached from a closure handed to the table's Compute")
+		})
+	}
+	if n == 0 {
+		cx.R.Undecided(rule, "cache", "singleflight.delete call", "-", "no call of singleflight.delete in the cache")
+	}
+}
